@@ -435,9 +435,11 @@ void vyukov_hash_map<Key, Value, Policies...>::erase(iterator& pos) {
     // the item we are currently looking at is an extension item
     auto next = pos.extension->next.load(std::memory_order_relaxed);
     pos.prev->store(next, std::memory_order_relaxed);
-    auto new_state = pos.current_bucket_state.locked().new_version();
+    // the new version also has to be remembered in the iterator, since this is the state that is written
+    // back when the bucket gets unlocked.
+    pos.current_bucket_state = pos.current_bucket_state.new_version();
     // (15) - this release-store synchronizes-with the acquire-load (23)
-    pos.current_bucket->state.store(new_state, std::memory_order_release);
+    pos.current_bucket->state.store(pos.current_bucket_state.locked(), std::memory_order_release);
 
     free_extension_item(pos.extension);
     pos.extension = next;
@@ -473,9 +475,12 @@ void vyukov_hash_map<Key, Value, Policies...>::erase(iterator& pos) {
     pos.current_bucket->head.store(next, std::memory_order_release);
 
     // increase the version but keep the lock
+    locked_state = locked_state.new_version();
     // (19) - this release-store synchronizes-with the acquire-load (23)
-    pos.current_bucket->state.store(locked_state.new_version(), std::memory_order_release);
+    pos.current_bucket->state.store(locked_state, std::memory_order_release);
     assert(pos.current_bucket->state.load().is_locked());
+    // remember the new version - this is the state that is written back when the bucket gets unlocked.
+    pos.current_bucket_state = locked_state.clear_lock();
     free_extension_item(extension);
   } else {
     auto max_index = pos.current_bucket_state.item_count() - 1;
